@@ -1,4 +1,4 @@
-//@ verus props=C06 tier=quick kind=X spec=sliding_window.rs timeout=300
+//@ verus props=C06,C08 tier=quick kind=X spec=sliding_window.rs timeout=300
 // Layer X for the C06 glue in the transport crate ("a packet number is acted upon at most once"): the duplicate gate
 // of the three packet-number spaces, checked on the REAL TEXT of quic/s2n-quic-transport/src/space/{application,
 // handshake,initial}.rs:
@@ -10,7 +10,8 @@
 //     `validate_and_decrypt_packet` (splice-item, brace-matched block): a packet whose number is not fresh is never
 //     returned to the caller as a cleartext packet;
 //   * `on_processed_packet` (whole function, splice-fn): records exactly the processed packet number (pointwise set
-//     contract over every q), so that the same number is a duplicate from then on.
+//     contract over every q), so that the same number is a duplicate from then on, and hands exactly that number to the
+//     space's AckManager, once (C08: what ACK frames may name; AckManager itself is layer F).
 // This is the modular step: the callee `SlidingWindow::{check, insert}` appears only through its contract (the
 // predicates of contracts/spec/sliding_window.rs), which layer F discharges on the real SlidingWindow for the full
 // 62-bit domain (contracts/kani/core/c06_sliding_window.rs: vq_c06_sliding_window_check /
@@ -79,18 +80,21 @@ pub struct PubX { pub dummy: u8 }
 pub struct PathEvent { pub dummy: u8 }
 pub struct TransportError { pub code: u64 }
 pub enum ProcessingError { Other, ConnectionError }
-pub struct ProcessedPacket { pub packet_number: PacketNumber }
+pub struct ProcessedPacket { pub packet_number: PacketNumber, pub ack_eliciting: bool }
+impl ProcessedPacket { pub fn is_ack_eliciting(&self) -> (r: bool) ensures r == self.ack_eliciting { self.ack_eliciting } }
 
 // the macro `path_event!(path, path_id)` builds an event value from two shared references
 #[verifier::external_body]
 pub fn path_event(path: &PathX, path_id: PathId) -> PathEvent { unimplemented!() }
 
-pub struct AckManager { pub dummy: u8 }
+/// `recorded` = the packet numbers handed to AckManager::on_processed_packet (what ACK frames may later name, C08)
+pub struct AckManager { pub recorded: Ghost<Seq<int>> }
 impl AckManager {
     // AckManager::on_processed_packet is under contract in layer F (C08/ack_manager.on_processed_packet/*); it has
     // no access to the duplicate window (separate field), which is all this job needs: frame by construction
     #[verifier::external_body]
     pub fn on_processed_packet(&mut self, processed_packet: &ProcessedPacket, path: PathEvent, publisher: &mut PubX)
+        ensures final(self).recorded@ == old(self).recorded@.push(processed_packet.packet_number.v as int),
     { unimplemented!() }
 }
 
@@ -152,6 +156,8 @@ impl ApplicationSpaceX {
 //@| ensures
 //@|     ret is Ok,
 //@|     records_exactly(old(self).processed_packet_numbers, final(self).processed_packet_numbers, processed_packet.packet_number),
+//@|     // C08: the ACK manager is told about exactly this packet number, once (ACK frames name only processed packets)
+//@|     final(self).ack_manager.recorded@ == old(self).ack_manager.recorded@.push(processed_packet.packet_number.v as int),
 }
 
 // ---- HandshakeSpace --------------------------------------------------------------------------------------------
@@ -179,6 +185,8 @@ impl HandshakeSpaceX {
 //@| ensures
 //@|     ret is Ok,
 //@|     records_exactly(old(self).processed_packet_numbers, final(self).processed_packet_numbers, processed_packet.packet_number),
+//@|     // C08: the ACK manager is told about exactly this packet number, once (ACK frames name only processed packets)
+//@|     final(self).ack_manager.recorded@ == old(self).ack_manager.recorded@.push(processed_packet.packet_number.v as int),
 }
 
 // ---- InitialSpace ----------------------------------------------------------------------------------------------
@@ -206,4 +214,6 @@ impl InitialSpaceX {
 //@| ensures
 //@|     ret is Ok,
 //@|     records_exactly(old(self).processed_packet_numbers, final(self).processed_packet_numbers, processed_packet.packet_number),
+//@|     // C08: the ACK manager is told about exactly this packet number, once (ACK frames name only processed packets)
+//@|     final(self).ack_manager.recorded@ == old(self).ack_manager.recorded@.push(processed_packet.packet_number.v as int),
 }
